@@ -129,6 +129,9 @@ type sessionCase struct {
 	// the server the session connects to ("" = the domain of its own address, or
 	// a host in another domain: hosted service, server-to-server)
 	location string
+	// the peer's first header on the protected stream: "" complete, "noid" /
+	// "noversion": lacks what its clear-text header declared
+	protHdr string
 	// beforeProceed, when set, is called by the peer after it has read the
 	// client's <starttls/> and before it answers <proceed/> (used to overlap
 	// several sessions that share one feature value)
@@ -147,7 +150,7 @@ func (tc tcase) String() string {
 	var sb strings.Builder
 	fmt.Fprintf(&sb, "StartTLS(cfg nil=%v) reused for %d sessions (one Negotiator value for all: %v):", tc.nilCfg, len(tc.sessions), tc.sharedNeg)
 	for i, s := range tc.sessions {
-		fmt.Fprintf(&sb, "\n  session %d: domain=%s first-list=%s answer=%s after-proceed=%s honest-after-tls=%v tee=%v extra-double=%v clear-header-to=%q location=%q", i, s.domain, s.first, s.answer, s.after, s.honest, s.tee, s.extraDbl, s.hdrTo, s.location)
+		fmt.Fprintf(&sb, "\n  session %d: domain=%s first-list=%s answer=%s after-proceed=%s honest-after-tls=%v tee=%v extra-double=%v clear-header-to=%q location=%q first-protected-header=%q", i, s.domain, s.first, s.answer, s.after, s.honest, s.tee, s.extraDbl, s.hdrTo, s.location, s.protHdr)
 	}
 	return sb.String()
 }
@@ -170,6 +173,7 @@ func genCase(t *rapid.T) tcase {
 			extraDbl: rapid.IntRange(0, 3).Draw(t, "extra") == 0,
 			hdrTo:    rapid.SampledFrom([]string{"", "", "own", "own", "foreign"}).Draw(t, "hdrTo"),
 			location: rapid.SampledFrom([]string{"", "", "xmpp.hosting.example.org"}).Draw(t, "location"),
+			protHdr:  rapid.SampledFrom([]string{"", "", "", "noid", "noversion"}).Draw(t, "protHdr"),
 		})
 	}
 	return tc
@@ -193,14 +197,30 @@ type sresult struct {
 	// namespaces Session.Feature reports as advertised "for the current stream"
 	// once the session is established
 	reported map[string]bool
+	// Session.In() once the constructor has returned
+	inID, inLang string
 }
 
 func header(from string) string { return headerTo(from, "") }
 
 func headerTo(from, to string) string {
-	h := `<?xml version="1.0"?><stream:stream xmlns="` + stanza.NSClient + `" xmlns:stream="` + wire.StreamNS + `" version="1.0" id="s1" from="` + from + `"`
+	h := `<?xml version="1.0"?><stream:stream xmlns="` + stanza.NSClient + `" xmlns:stream="` + wire.StreamNS + `" version="1.0" id="s1" xml:lang="tlh" from="` + from + `"`
 	if to != "" {
 		h += ` to="` + to + `"`
+	}
+	return h + ">"
+}
+
+// protHeader is a header of the TLS-protected stream: its own id, no language.
+// kind "noid" / "noversion": it fails to declare what the clear-text header
+// declared.
+func protHeader(from, kind string) string {
+	h := `<?xml version="1.0"?><stream:stream xmlns="` + stanza.NSClient + `" xmlns:stream="` + wire.StreamNS + `" from="` + from + `"`
+	if kind != "noversion" {
+		h += ` version="1.0"`
+	}
+	if kind != "noid" {
+		h += ` id="p1"`
 	}
 	return h + ">"
 }
@@ -432,13 +452,13 @@ func runSessionNeg(sc sessionCase, feature xmpp.StreamFeature, forceTee *bool, s
 			return
 		}
 		if !sc.honest {
-			srv.Write([]byte(header(peerFrom) + `<stream:features/>`))
+			srv.Write([]byte(protHeader(peerFrom, sc.protHdr) + `<stream:features/>`))
 			// an empty list over TLS: the client may legitimately become ready
 			time.Sleep(time.Millisecond)
 			return
 		}
 		// honest SASL + bind
-		srv.Write([]byte(header(peerFrom) + `<stream:features>` + mechs + `</stream:features>`))
+		srv.Write([]byte(protHeader(peerFrom, sc.protHdr) + `<stream:features>` + mechs + `</stream:features>`))
 		prot = nil
 		for !bytes.Contains(prot, []byte("</auth>")) {
 			n, err := srv.Read(buf)
@@ -458,7 +478,7 @@ func runSessionNeg(sc sessionCase, feature xmpp.StreamFeature, forceTee *bool, s
 				return
 			}
 		}
-		srv.Write([]byte(header(peerFrom) + `<stream:features><bind xmlns="` + bindNS + `"/></stream:features>`))
+		srv.Write([]byte(protHeader(peerFrom, "") + `<stream:features><bind xmlns="` + bindNS + `"/></stream:features>`))
 		prot = nil
 		for !bytes.Contains(prot, []byte("</iq>")) {
 			n, err := srv.Read(buf)
@@ -512,6 +532,7 @@ func runSessionNeg(sc sessionCase, feature xmpp.StreamFeature, forceTee *bool, s
 	if s != nil {
 		res.state = s.State()
 		res.hsComplete = s.ConnectionState().HandshakeComplete
+		res.inID, res.inLang = s.In().ID, s.In().Lang
 		res.reported = map[string]bool{}
 		for _, ns := range []string{tlsNS, saslNS, bindNS, "urn:verif:sec"} {
 			if _, ok := s.Feature(ns); ok {
@@ -642,6 +663,22 @@ func check(t failer, tc tcase) {
 			}
 			if len(clearOnly) > 1 {
 				ev.Class("clear-only-advertisements-then-tls")
+			}
+		}
+		// (c'') what the clear-text header declared (stream id, language, version)
+		// says nothing about the protected stream
+		if r.hsComplete && r.err == nil {
+			if sc.protHdr != "" {
+				fail("the peer's header on the TLS-protected stream is deficient (%s) but the session was established: what the clear-text header declared stood in for it (Session.In(): id %q lang %q)", sc.protHdr, r.inID, r.inLang)
+			}
+			if r.inID == "s1" || r.inLang == "tlh" {
+				fail("Session.In() reports id %q and language %q for the TLS-protected stream: these are the values of the clear-text header (the protected header has id \"p1\" and no language)", r.inID, r.inLang)
+			}
+		}
+		if r.hsComplete && sc.protHdr != "" {
+			ev.Class("deficient-header-on-the-protected-stream")
+			if r.state&xmpp.Ready != 0 {
+				fail("the peer's header on the TLS-protected stream is deficient (%s) but the session is ready (err=%v)", sc.protHdr, r.err)
 			}
 		}
 		// (d) default configuration names this session's own domain
